@@ -280,6 +280,15 @@ class _State:
         return s
 
 
+class Pitfall(AnalysisError):
+    """a construct on a path the analysis needs that is wrong whatever the property says (reported as a violation of the
+    property whose analysis reads it, rule LP)"""
+
+    def __init__(self, construct, where, msg):
+        super().__init__(f"{construct}: {msg}")
+        self.construct, self.where, self.msg = construct, where, msg
+
+
 class _RaiseSignal(Exception):
     def __init__(self, exc: str, term=None, node=None):
         self.exc = exc
@@ -2039,6 +2048,50 @@ class Engine:
         except (_RaiseSignal, AnalysisError):
             return None
 
+    _ONESHOT_CALLS = ("map", "filter", "zip", "iter", "reversed", "enumerate", "itertools.chain", "itertools.starmap")
+
+    def _bound_once(self, base, attr, fi):
+        """self.X where X is assigned exactly once, in __init__, to a collection built from the object's own parts and
+        constants (`tuple(part.m for part in (self.a, self.b))`, `[self.a.m, self.b.m]`): its elements, evaluated in the
+        object.  When the assigned value is a *one-shot iterator* (a generator expression, map / filter / zip / iter ...)
+        the attribute is empty after its first traversal: reading it from a method that can run more than once is a
+        defect whatever the property (Pitfall)."""
+        if base[0] != "self" or base[1] not in self.prog.classes or not self.policy.transparent_helpers or fi.name == "__init__":
+            return None
+        ci = self.prog.classes[base[1]]
+        ini = [(f_, v_) for c_ in ci.mro if c_ in self.prog.classes for (f_, v_) in self.prog.classes[c_].attr_init.get(attr, [])]
+        if len(ini) != 1 or ini[0][0].name != "__init__":
+            return None
+        init, val = ini[0]
+        oneshot = isinstance(val, ast.GeneratorExp) or (isinstance(val, ast.Call) and (dotted(val.func) or "") in self._ONESHOT_CALLS)
+        # (immutable collections only: a list bound in __init__ is filled and emptied by the methods)
+        shaped = oneshot or (isinstance(val, ast.Tuple) and val.elts) or (
+            isinstance(val, ast.Call) and (dotted(val.func) or "") in ("tuple", "frozenset") and len(val.args) == 1
+            and isinstance(val.args[0], (ast.GeneratorExp, ast.ListComp, ast.Tuple, ast.List)))
+        if not shaped:
+            return None
+        pnames = set(init.params()[1:])
+        bound_in = {n_.id for n_ in ast.walk(val) if isinstance(n_, ast.Name) and isinstance(n_.ctx, ast.Store)}
+        for n_ in ast.walk(val):
+            if isinstance(n_, ast.Name) and isinstance(n_.ctx, ast.Load) and n_.id != "self" and n_.id not in bound_in \
+                    and (n_.id in pnames or not (n_.id in BUILTIN_NAMES or self.prog.resolve_global(init.module, n_.id))):
+                return None  # depends on a constructor argument / a local of __init__
+        if oneshot and not getattr(self.policy, "report_pitfalls", True):
+            return None
+        if oneshot:
+            raise Pitfall(f"{ci.qual}.{attr}", f"{init.module.relpath}:{val.lineno}",
+                          f"self.{attr} is bound once, in __init__, to a one-shot iterator ({type(val).__name__ if not isinstance(val, ast.Call) else dotted(val.func) + '(..)'}); "
+                          f"{fi.qual} traverses it on every call - the first traversal exhausts it, every later call finds it empty")
+        st = _State()
+        st.env["self"] = base
+        try:
+            v = self._eval(val, st, init, 99, _Chooser())
+        except (_RaiseSignal, AnalysisError):
+            return None
+        if v[0] in ("tuple", "set") and v[1] and not any(x[0] == "starred" for x in v[1]):
+            return v
+        return None
+
     def _canon_attr(self, base, attr):
         """composition: `owner.h.y` where the owner's class has a property X that just returns self.h.y is the owner's own
         attribute X (and X itself is read as a plain attribute, not as a call of its getter)"""
@@ -2061,6 +2114,9 @@ class Engine:
         inj = self._injected(base, attr)
         if inj is not None:
             return inj
+        bo = self._bound_once(base, attr, fi)
+        if bo is not None:
+            return bo
         nt = self._nt_field(base, attr)
         if nt is not None:
             cq, idx = nt
